@@ -261,7 +261,7 @@ func (d *directStrings) eval(c strCall) (o outcome) {
 	case "nfc":
 		return outcome{Val: hx(h.Str)}
 	case "utf8":
-		bs, err := interpreter.ByteArrayValueToByteSlice(in, h.GetMember(in, "utf8"))
+		bs, err := interpreter.ByteArrayValueToByteSlice(in, h.GetMember(in, "utf8", common.DeclarationKindField, nil))
 		if err != nil {
 			panic(err)
 		}
